@@ -78,6 +78,73 @@ func runC13(w *World, r *Report) {
 		}
 	}
 
+	// ---- R-C13-6: the capture begun for the body is ended on the failure path too
+	r.Rule("R-C13-6", "a test that fails at run time is still reported: on every path of compileTestBody that emitted BeginCapture for the body (feasible under the branch conditions that dominate that emission), an EndCapture is emitted between the catch handler's address (SetAddressHere of the Mark taken before Try) and the call of emitTestFail — otherwise the (FAIL) line and the test's own output are written into the abandoned capture buffer and lost", 1)
+
+	{
+		opBegin, opEnd := opc("BeginCapture"), opc("EndCapture")
+		key := "compiler.Compiler.compileTestBody|EndCapture in the catch handler"
+
+		var begin, tryE, handler, failCall ssa.Instruction
+
+		allInstrs(fn, func(in ssa.Instruction) {
+			switch {
+			case emitOf(in) == opBegin:
+				begin = in
+			case emitOf(in) == opTry && tryE == nil:
+				tryE = in
+			}
+
+			if c, ok := in.(*ssa.Call); ok && callID(c.Common()) == "internal/language/compiler.Compiler.emitTestFail" {
+				failCall = in
+			}
+		})
+
+		if tryE != nil {
+			allInstrs(fn, func(in ssa.Instruction) {
+				c, ok := in.(*ssa.Call)
+				if !ok || !strings.HasSuffix(callID(c.Common()), "bytecode.ByteCode.SetAddressHere") || len(c.Call.Args) < 2 {
+					return
+				}
+
+				mk, ok := c.Call.Args[1].(*ssa.Call)
+				if ok && strings.HasSuffix(callID(mk.Common()), "bytecode.ByteCode.Mark") && instrDominates(mk, tryE) {
+					handler = in
+				}
+			})
+		}
+
+		switch {
+		case begin == nil || failCall == nil || handler == nil:
+			r.Anchor("R-C13-6", "Emit(BeginCapture), SetAddressHere(<mark before Try>) and the call of emitTestFail in compileTestBody")
+		default:
+			need := dominatingFacts(begin.Block())
+
+			contradicts := func(f Fact) bool {
+				for _, d := range need {
+					if d.V == nil || d.V != f.V {
+						continue
+					}
+
+					if (d.Kind == "nil" && f.Kind == "nonnil") || (d.Kind == "nonnil" && f.Kind == "nil") ||
+						(d.Kind == "true" && f.Kind == "false") || (d.Kind == "false" && f.Kind == "true") {
+						return true
+					}
+				}
+
+				return false
+			}
+
+			cuts := cutEdges(fn, contradicts)
+
+			if miss := pathAvoiding(handler, cuts, func(i ssa.Instruction) bool { return emitOf(i) == opEnd }, func(i ssa.Instruction) bool { return i == failCall }); miss != nil {
+				r.Violate("R-C13-6", key, w.pos(failCall.Pos()), "the catch handler reports the failure while the capture begun for the test body is still in force (no EndCapture between the handler's address and emitTestFail on a path that emitted BeginCapture): a test that fails at run time gets no (FAIL) line and loses what it printed")
+			} else {
+				r.Discharge("R-C13-6", key, w.pos(failCall.Pos()), "EndCapture emitted on every such path")
+			}
+		}
+	}
+
 	// ---- R-C13-1
 	var compileCall *ssa.Call
 
